@@ -2,6 +2,7 @@
 C07 — Metadata nodes leave no trace in the markup.
 -/
 import HtmlVerif.Spec.Meta
+import HtmlVerif.Lemmas.Render
 
 namespace HtmlVerif.C07
 open HtmlVerif
@@ -14,6 +15,13 @@ theorem visible_stripMeta (ks : Nodes) :
     cases h <;> simp_all [Nodes.stripMeta, Nodes.visible, Node.isMeta, Node.stripMeta]
   | _ => trivial
 
+theorem inlineChild?_stripMeta (v : List Node) :
+    inlineChild? (v.map Node.stripMeta) = inlineChild? v := by
+  match v with
+  | [] => rfl
+  | [a] => cases a <;> simp [Node.stripMeta, inlineChild?]
+  | a :: b :: r => simp
+
 mutual
   /-- rendering a tag is unchanged by deleting all metadata nodes below it -/
   theorem C07_tag (cfg : Cfg) (n : Node) (i : Nat) (e : Str) :
@@ -23,19 +31,8 @@ mutual
       have hv := visible_stripMeta kids
       have hk := C07_kids cfg kids
       simp only [Node.stripMeta, Node.render]
-      rw [hv]
-      generalize kids.visible = v
-      match v with
-      | [] => simp
-      | [.text s] => simp [Node.stripMeta]
-      | [.html s] => simp [Node.stripMeta]
-      | [.tag ..] => simp [Node.stripMeta, hk]
-      | [.robj _] => simp [Node.stripMeta, hk]
-      | [.mnode _] => simp [Node.stripMeta, hk]
-      | [.dep ..] => simp [Node.stripMeta, hk]
-      | [.tobjL ..] => simp [Node.stripMeta, hk]
-      | [.tobj1 ..] => simp [Node.stripMeta, hk]
-      | _ :: _ :: _ => simp [hk]
+      rw [hv, inlineChild?_stripMeta, hk]
+      simp
     | _ => simp [Node.stripMeta]
   theorem C07_kids (cfg : Cfg) (ks : Nodes) (i : Nat) (e : Str) (first prevWs esc : Bool) :
       ks.stripMeta.renderKids cfg i e first prevWs esc = ks.renderKids cfg i e first prevWs esc := by
